@@ -162,7 +162,7 @@ def run(ctx):
         st = roles(ctx, v).stop
         g = cfg_of(st.node)
         flow = status_flow(st, frozenset({"stopped"}))
-        eff = [nd for nd in g.nodes if flow.get(nd.id) and nd.kind == "stmt" and not isinstance(nd.ast, (ast.Return, ast.Expr)) ]
+        eff = [nd for nd in g.nodes if flow.get(nd.id) and nd.kind == "stmt" and not isinstance(nd.ast, (ast.Return, ast.Expr, ast.Pass))]
         eff = [nd for nd in eff if not (isinstance(nd.ast, ast.Expr))]
         c.ob("R4", not eff, st, "stop-idempotent", "stop() on a stopped interpreter returns before any effect" if not eff else
              f"stop() on a stopped interpreter still executes '{stmt_text(eff[0].ast)}'", st.node)
